@@ -10,8 +10,11 @@ from typing import Any, Dict, Iterable, List, Optional, Sequence, Tuple
 
 import yaml
 
-SCEN_DENVER = Path("/repo/nrel/hive/resources/scenarios/denver_downtown")
-SCEN_MANHATTAN = Path("/repo/nrel/hive/resources/scenarios/manhattan")
+import os
+
+_REPO = Path(os.environ.get("HIVE_REPO", "/repo"))
+SCEN_DENVER = _REPO / "nrel/hive/resources/scenarios/denver_downtown"
+SCEN_MANHATTAN = _REPO / "nrel/hive/resources/scenarios/manhattan"
 
 # centre of the generated worlds (downtown Denver, inside the shipped OSM graph)
 LAT0, LON0 = 39.7500, -104.9900
